@@ -224,6 +224,8 @@ def run_hist(init_bp, hist, check_from=0):
                 q = outparse.queried_matcher(sut._lines(out.buffer[o1:]))
                 bp_txt = [q] if q is not None else []
                 ref.impl_bp = bp_txt[0] if bp_txt else None
+                if ref.impl_bp is not None and len(ref.impl_bp) > 4000:
+                    ref.impl_bp = 'long:%s:%d' % (explore.h64(ref.impl_bp[:100000]), len(ref.impl_bp))      # keys stay small
                 if checked and ref.selection != '?' and marked != ([ref.selection] if ref.selection else []):
                     V.append(Violation('halt.selection_state', case, {'step': n, 'command': text, 'expected_selected': ref.selection,
                                                                       'listing_marks': marked}))
